@@ -22,7 +22,7 @@ func init() {
 	register(&Check{
 		ID: "C13", Level: "exploration", Configs: []string{"clean"},
 		Run:         runC13,
-		QuickRuns:   150_000,
+		QuickRuns:   120_000,
 		ThoroughSec: 600,
 		Rule: "one run = 1-8 temporal units of 1-8 OBUs (all 16 types incl. temporal delimiters and tile lists, optional extension header with drawn temporal/spatial id and reserved bits, " +
 			"size field on all OBUs or omitted on the last, payload sizes {0,1,126-129,16382-16385,mtu-3..mtu+1,..4*mtu}) through a real AV1Payloader at an MTU >= 2 (biased 2-64, 1200) to a " +
